@@ -21,8 +21,10 @@ OPT = "src/optimizer/optimizer.py"
 CORPUS = []
 
 
-def M(pid, name, file, old, new, expect, nth=0):
-    CORPUS.append(dict(pid=pid, name=name, file=file, old=old, new=new, expect=expect, nth=nth))
+def M(pid, name, file, old, new, expect, nth=0, more=(), copy_data=False):
+    """more: further (file, old, new) edits applied with the first one"""
+    CORPUS.append(dict(pid=pid, name=name, file=file, old=old, new=new, expect=expect, nth=nth, more=list(more),
+                       copy_data=copy_data))
 
 
 # ---------------------------------------------------------------------------- C01
@@ -183,6 +185,162 @@ M("C01", "R-rename-locals-seaweed", OPT,
             prev_seaweed = last_month_biomass''', None)
 
 
+# ---------------------------------------------------------------------------- C02
+M("C02", "objective-loop-skips-month0", OPT,
+  """        if optimization_type == "to_humans":
+            for month in range(0, self.NMONTHS):
+                (
+                    model,
+                    variables,
+                    maximize_constraints,
+                ) = self.add_maximize_min_month_objective_to_model(""",
+  """        if optimization_type == "to_humans":
+            for month in range(1, self.NMONTHS):
+                (
+                    model,
+                    variables,
+                    maximize_constraints,
+                ) = self.add_maximize_min_month_objective_to_model(""", "C02.OBJ")
+M("C02", "sum-drops-fish", OPT,
+  """                + self.time_consts["greenhouse_crops"][month].kcals
+                + self.time_consts["fish"].to_humans.kcals[month]
+            )""",
+  """                + self.time_consts["greenhouse_crops"][month].kcals
+            )""", "C02.SUM")
+M("C02", "sum-milk-previous-month", OPT,
+  """                + self.time_consts["milk_kcals"][month]
+                + variables["meat_eaten"][month]""",
+  """                + self.time_consts["milk_kcals"][month - 1]
+                + variables["meat_eaten"][month]""", "C02.SUM")
+M("C02", "sum-seaweed-kcals-forgotten", OPT,
+  """                + variables["seaweed_to_humans"][month]
+                * self.consts_for_optimizer["SEAWEED_KCALS"]
+                + self.time_consts["milk_kcals"][month]""",
+  """                + variables["seaweed_to_humans"][month]
+                + self.time_consts["milk_kcals"][month]""", "C02.SUM")
+M("C02", "weights-swapped", OPT,
+  """            variables["objective_function"] <= 2 / 3 * feed_sum + biofuel_sum / 3,""",
+  """            variables["objective_function"] <= 1 / 3 * feed_sum + biofuel_sum / 3,""", "C02.ANIMAL")
+M("C02", "cap-divisor", OPT,
+  """                        self.consts_for_optimizer["inputs"][limit_key] / 100
+                    )""",
+  """                        self.consts_for_optimizer["inputs"][limit_key] / 10
+                    )""", "C02.CAPS")
+M("C02", "cap-feed-uses-biofuel-charge", OPT,
+  """                        kcals_feed_or_biofuel_used = self.time_consts[
+                            variable_tag.lower()
+                        ].kcals[month]""",
+  """                        kcals_feed_or_biofuel_used = self.time_consts[
+                            "biofuel"
+                        ].kcals[month]""", "C02.CAPS")
+M("C02", "pin-seaweed-without-kcals", OPT,
+  """                variables["seaweed_to_humans"][month] * seaweed_kcals >= lower_bound""",
+  """                variables["seaweed_to_humans"][month] >= lower_bound""", "C02.ANIMAL")
+M("C02", "pin-upper-loose", OPT,
+  """            upper_bound = 1.00001 * min_consumption""",
+  """            upper_bound = 1.01 * min_consumption""", "C02.ANIMAL")
+M("C02", "pin-meat-constrains-stored-food", OPT,
+  """            condition["Meat_Max_Requirement"] = (
+                variables["meat_eaten"][month] <= upper_bound""",
+  """            condition["Meat_Max_Requirement"] = (
+                variables["stored_food_to_humans"][month] <= upper_bound""", "C02.ANIMAL")
+M("C02", "percent-read-after-reoptimisation", OPT,
+  """        percent_fed_from_first_optimization = model.objective.value()
+        # To determine the allocation of""",
+  """        # To determine the allocation of""", "C02.READ",
+  more=[(OPT, """        return percent_fed_from_first_optimization
+""", """        percent_fed_from_first_optimization = model.objective.value()
+        return percent_fed_from_first_optimization
+""")])
+M("C02", "objective-constraint-reversed", OPT,
+  """            variables["objective_function"] <= variables["consumed_kcals"][month],
+            maximizer_string,
+        )
+
+        if self.consts_for_optimizer["inputs"]["INCLUDE_FAT"]:
+            maximizer_string = "Fat_Fed_Month_""" + '"',
+  """            variables["objective_function"] >= variables["consumed_kcals"][month],
+            maximizer_string,
+        )
+
+        if self.consts_for_optimizer["inputs"]["INCLUDE_FAT"]:
+            maximizer_string = "Fat_Fed_Month_""" + '"', "C02.OBJ")
+M("C02", "R-reorder-sum", OPT,
+  """                + self.time_consts["greenhouse_crops"][month].kcals
+                + self.time_consts["fish"].to_humans.kcals[month]
+            )""",
+  """                + self.time_consts["fish"].to_humans.kcals[month]
+                + self.time_consts["greenhouse_crops"][month].kcals
+            )""", None)
+M("C02", "R-weights-rewritten", OPT,
+  """            variables["objective_function"] <= 2 / 3 * feed_sum + biofuel_sum / 3,""",
+  """            3 * variables["objective_function"] <= 2 * feed_sum + biofuel_sum,""", None)
+M("C02", "R-cap-rearranged", OPT,
+  """                        condition = (
+                            max_fraction_of_consumption
+                            * initial_population_minimum_needs
+                            >= food_consumption_to_limit * kcal_to_nutrient_ratio
+                        )""",
+  """                        condition = (
+                            food_consumption_to_limit * kcal_to_nutrient_ratio
+                            - max_fraction_of_consumption
+                            * initial_population_minimum_needs
+                            <= 0
+                        )""", None)
+
+# ---------------------------------------------------------------------------- C12
+M("C12", "absolute-cap", OPT,
+  """        conditions = {
+            "Methane_SCP": (
+                total_methane_scp <= self.time_consts["methane_scp"].kcals[month]
+            )
+        }""",
+  """        conditions = {
+            "Methane_SCP": (
+                total_methane_scp <= self.time_consts["methane_scp"].kcals[month]
+            ),
+            "Methane_SCP_Plant_Limit": variables["methane_scp_to_humans"][month] <= 1000,
+        }""", "C12.SCALE")
+M("C12", "hard-coded-population", OPT,
+  """            self.consts_for_optimizer["POP"]
+            * self.consts_for_optimizer["KCALS_MONTHLY"]
+            / 1e9""",
+  """            7.8e9
+            * self.consts_for_optimizer["KCALS_MONTHLY"]
+            / 1e9""", "C12.SCALE")
+M("C12", "production-sign-flipped", OPT,
+  """                variables["crops_food_storage"][month]
+                == self.time_consts["outdoor_crops"].production.kcals[month]
+                - variables["crops_food_consumed"][month]
+            )
+        }
+        # Return the dictionary with the condition and its value""",
+  """                variables["crops_food_storage"][month]
+                == -self.time_consts["outdoor_crops"].production.kcals[month]
+                + variables["crops_food_consumed"][month]
+            )
+        }
+        # Return the dictionary with the condition and its value""", "C12.SIGN")
+M("C12", "supply-as-lower-bound", OPT,
+  """                total_cellulosic_sugar
+                <= self.time_consts["cellulosic_sugar"].kcals[month]""",
+  """                total_cellulosic_sugar
+                >= self.time_consts["cellulosic_sugar"].kcals[month]""", "C12.SIGN")
+M("C12", "fish-subtracted", OPT,
+  """                + self.time_consts["fish"].to_humans.kcals[month]
+            )
+            / self.consts_for_optimizer["BILLION_KCALS_NEEDED"]""",
+  """                - self.time_consts["fish"].to_humans.kcals[month]
+            )
+            / self.consts_for_optimizer["BILLION_KCALS_NEEDED"]""", "C12.SIGN")
+M("C12", "R-percent-scaling-rewritten", OPT,
+  """            / self.consts_for_optimizer["BILLION_KCALS_NEEDED"]
+            * 100,
+            "Kcals_Fed_Month_""" + '"',
+  """            * 100
+            / self.consts_for_optimizer["BILLION_KCALS_NEEDED"],
+            "Kcals_Fed_Month_""" + '"', None)
+
 # ---------------------------------------------------------------------------- runner
 
 COPY = ["src", "scenarios", "scripts", "plot_manuscript_figures.py", "tests"]
@@ -233,6 +391,20 @@ def _run_one(m, base_known):
                 return m["name"], "stale", f"mutant does not compile: {e}"
         with open(path, "w", encoding="utf-8") as f:
             f.write(src2)
+        for f2, o2, n2 in m.get("more", []):
+            p2 = os.path.join(tmp, f2)
+            with open(p2, encoding="utf-8") as f:
+                s2 = f.read()
+            if s2.count(o2) != 1:
+                return m["name"], "stale", "secondary edit text not found exactly once"
+            s2 = s2.replace(o2, n2)
+            if f2.endswith(".py"):
+                try:
+                    compile(s2, p2, "exec")
+                except SyntaxError as e:
+                    return m["name"], "stale", f"mutant does not compile: {e}"
+            with open(p2, "w", encoding="utf-8") as f:
+                f.write(s2)
         env = dict(os.environ)
         env["ALLFEDSA_REPO"] = tmp
         env["ALLFEDSA_EVIDENCE_DIR"] = os.path.join(tmp, "_evidence")
